@@ -22,6 +22,9 @@ pub enum KeyKind {
     Rsa2048S512,
     Rsa4096S256,
     Rsa4096S512,
+    /// the RSA-2048 material declared with a signature scheme the library does not implement;
+    /// nobody can make a valid signature for this identity
+    RsaUnknown,
 }
 
 impl KeyKind {
@@ -93,7 +96,9 @@ fn ed_pair(seed: u64) -> (Vec<u8>, Vec<u8>) {
 
 fn ed_pk8(seed: u64) -> Vec<u8> {
     // PKCS#8 v2 (RFC 5958) document as ring emits it: fixed prefix, seed, fixed middle, public key.
-    let (s, p) = ed_pair(seed ^ 0x7070);
+    // the same key material as KeyKind::Ed with this seed: the two kinds are one key under two key ids
+    // (the PKCS#8 import adds keyid_hash_algorithms, which enter the id)
+    let (s, p) = ed_pair(seed);
     let mut v = vec![
         0x30, 0x51, 0x02, 0x01, 0x01, 0x30, 0x05, 0x06, 0x03, 0x2b, 0x65, 0x70, 0x04, 0x22, 0x04, 0x20,
     ];
@@ -108,7 +113,7 @@ pub fn pkcs8_of(spec: KeySpec) -> Vec<u8> {
     match spec.kind {
         KeyKind::Ed | KeyKind::EdPk8 => ed_pk8(spec.seed),
         KeyKind::Ecdsa => ecdsa_pk8(spec.seed),
-        KeyKind::Rsa2048S256 | KeyKind::Rsa2048S512 => RSA2048.to_vec(),
+        KeyKind::Rsa2048S256 | KeyKind::Rsa2048S512 | KeyKind::RsaUnknown => RSA2048.to_vec(),
         KeyKind::Rsa4096S256 | KeyKind::Rsa4096S512 => RSA4096.to_vec(),
     }
 }
@@ -129,8 +134,13 @@ pub fn make_key(spec: KeySpec) -> Key {
         KeyKind::Rsa2048S512 => PrivateKey::from_pkcs8(RSA2048, SignatureScheme::RsaSsaPssSha512).expect("rsa"),
         KeyKind::Rsa4096S256 => PrivateKey::from_pkcs8(RSA4096, SignatureScheme::RsaSsaPssSha256).expect("rsa"),
         KeyKind::Rsa4096S512 => PrivateKey::from_pkcs8(RSA4096, SignatureScheme::RsaSsaPssSha512).expect("rsa"),
+        KeyKind::RsaUnknown => PrivateKey::from_pkcs8(RSA2048, SignatureScheme::RsaSsaPssSha256).expect("rsa"),
     };
-    let public = private.public().clone();
+    let mut public = private.public().clone();
+    if spec.kind == KeyKind::RsaUnknown {
+        let spki = public.as_spki().expect("spki");
+        public = PublicKey::from_spki(&spki, SignatureScheme::Unknown("rsassa-pss-sha384".into())).expect("unknown-scheme key");
+    }
     let id = serde_json::to_value(public.key_id()).unwrap().as_str().unwrap().to_string();
     Key { spec, private, public, id }
 }
@@ -155,7 +165,7 @@ pub fn key(spec: KeySpec) -> Rc<Key> {
 pub fn normalize(mut spec: KeySpec) -> KeySpec {
     if matches!(
         spec.kind,
-        KeyKind::Rsa2048S256 | KeyKind::Rsa2048S512 | KeyKind::Rsa4096S256 | KeyKind::Rsa4096S512
+        KeyKind::Rsa2048S256 | KeyKind::Rsa2048S512 | KeyKind::Rsa4096S256 | KeyKind::Rsa4096S512 | KeyKind::RsaUnknown
     ) {
         spec.seed = 0;
     }
